@@ -808,7 +808,9 @@ func (nw *zzvNet) checkState(linkCount int) {
 				for _, e := range ents {
 					if e.O == o && e.R == rid {
 						have = true
-						if e.Seq > nw.annLo[o] && e.Seq <= nw.annHi[o] && !e.Old {
+						// renewed by the last announcement or by something the origin said later (its own routes
+						// in a table replay): the sequence is one the origin issued since that announcement began
+						if e.Seq > nw.annLo[o] && e.Seq <= nw.nodes[o].mgr.GetCurrentSequence() && !e.Old {
 							fresh = true
 						}
 					}
@@ -816,8 +818,8 @@ func (nw *zzvNet) checkState(linkCount int) {
 				if !have {
 					nw.pred("C12", "not-learned", fmt.Sprintf("quiescent, %s announced, but %s has no route %s of %s", o, name, rid, o), nil)
 				} else if !fresh {
-					nw.pred("C14", "not-refreshed", fmt.Sprintf("quiescent after an announcement of %s (sequences %d..%d) but the copy of %s/%s at %s was not renewed by it",
-						o, nw.annLo[o]+1, nw.annHi[o], o, rid, name), map[string]any{"node": name, "table": ents})
+					nw.pred("C14", "not-refreshed", fmt.Sprintf("quiescent after an announcement of %s (sequences %d..%d, counter now %d) but the copy of %s/%s at %s was not renewed by it",
+						o, nw.annLo[o]+1, nw.annHi[o], nw.nodes[o].mgr.GetCurrentSequence(), o, rid, name), map[string]any{"node": name, "table": ents})
 				}
 			}
 		}
